@@ -14,6 +14,9 @@ use crate::sess::*;
 use crate::world::*;
 use serde_json::{json, Value};
 
+/// marker added to a sweep length: the message is a big compressed one of about (length - HUGE) bytes
+const HUGE: usize = 1 << 40;
+
 pub struct C05 {
     pub ctx: WorldCtx,
     sweep: Vec<(Exp, Dir, usize)>,
@@ -28,6 +31,11 @@ impl C05 {
                     sweep.push((e, d, l));
                 }
             }
+        }
+        // Wrath server messages beyond 0xFFFF bytes (the 3-byte size form with more than 16 significant bits): carried by
+        // a compressed message with an incompressible payload, since WARDEN_DATA's own window ends at 0xFFFF
+        for l in [0xFFF8usize, 0x10000, 0x10002, 0x10100, 0x13886, 0x20000, 0x27106, 0x40000, 0x100000] {
+            sweep.push((Exp::Wrath, Dir::Server, l + HUGE));
         }
         C05 { ctx: WorldCtx::new(), sweep }
     }
@@ -86,13 +94,24 @@ impl Check for C05 {
             let wfl = [Flavour::Astd, Flavour::Sync, Flavour::Tokio][(combo % 3) as usize];
             let entry = if combo < 3 { "enum" } else { "expect" };
             let m = self.ctx.model(exp);
-            let (frames, names) = gen_frames(m, exp, dir, &mut wl, 2, &Knobs { avoid_cond_flag_branches: 100, ..Knobs::default() });
+            let (mut frames, mut names) = gen_frames(m, exp, dir, &mut wl, 2, &Knobs { avoid_cond_flag_branches: 100, ..Knobs::default() });
+            let mut warden = json!([[1, len]]);
+            let mut len = len;
+            if len >= HUGE {
+                len -= HUGE;
+                warden = json!([]);
+                if let Some((f, nm)) = self.ctx.big_compressed_frame_of(exp, dir, &mut wl, "SMSG_COMPRESSED_UPDATE_OBJECT", len) {
+                    let pos = 1.min(frames.len());
+                    frames.insert(pos, f);
+                    names.insert(pos, nm);
+                }
+            }
             let total = len + 256;
             let ws = if combo % 2 == 0 { Schedule::whole() } else { Schedule::random(&mut sr, total, wfl == Flavour::Sync) };
             let rs = if i % 4 == 0 { Schedule::whole() } else { Schedule::random(&mut sr, total, fl == Flavour::Sync) };
             let key = key_of(&mut cf);
             return json!({"kind": "sweep", "wrong_expect": [], "label": format!("{}:{}:len={:#x}", exp.name(), dir.name(), len),
-                "exp": exp.name(), "dir": dir.name(), "frames": frames, "names": names, "warden": [[1, len]], "key": hex(&key),
+                "exp": exp.name(), "dir": dir.name(), "frames": frames, "names": names, "warden": warden, "key": hex(&key),
                 "wflavour": wfl.name(), "rflavour": fl.name(), "rentry": entry, "wsched": sched_json(&ws), "rsched": sched_json(&rs)});
         }
         let exp = *cf.pick(&Exp::ALL);
